@@ -237,7 +237,7 @@ func (w *World) seedBytes(label string, n int) []byte {
 }
 
 func (w *World) AddIssuer1(keySeed int64) *Issuer1 {
-	seed := w.seedBytes(fmt.Sprintf("iss1/%d", keySeed), 48)
+	seed := w.seedBytes(fmt.Sprintf("iss1/%d/%d", keySeed, len(w.I1)), 48) // the index makes two issuers of one plan differ even for equal key numbers
 	key, err := oprf.DeriveKey(oprf.SuiteP384, oprf.VerifiableMode, seed, []byte("verif"))
 	if err != nil {
 		panic(err)
@@ -254,7 +254,7 @@ func (w *World) AddIssuer1(keySeed int64) *Issuer1 {
 }
 
 func (w *World) AddIssuer5(keySeed int64) *Issuer5 {
-	seed := w.seedBytes(fmt.Sprintf("iss5/%d", keySeed), 32)
+	seed := w.seedBytes(fmt.Sprintf("iss5/%d/%d", keySeed, len(w.I5)), 32)
 	key, err := oprf.DeriveKey(oprf.SuiteRistretto255, oprf.VerifiableMode, seed, []byte("verif"))
 	if err != nil {
 		panic(err)
@@ -271,6 +271,16 @@ func (w *World) AddIssuer5(keySeed int64) *Issuer5 {
 }
 
 func (w *World) AddIssuer2(fix int64) *Issuer2 {
+	for again := true; again; { // distinct fixture keys within one plan
+		again = false
+		for _, o := range w.I2 {
+			if o.Fix == int(((fix%8)+8)%8) {
+				fix++
+				again = true
+			}
+		}
+	}
+	fix = ((fix % 8) + 8) % 8
 	key := fixtures.RSA(int(fix))
 	iss := type2.NewBasicPublicIssuer(key)
 	der, err := util.MarshalTokenKeyPSSOID(&key.PublicKey)
@@ -286,6 +296,16 @@ func (w *World) AddIssuer2(fix int64) *Issuer2 {
 // AddIssuer3 creates a rate-limited issuer. Its HPKE name key is derived by the repository
 // from 32 bytes of simulated entropy, which the harness records (Ikm).
 func (w *World) AddIssuer3(fix int64) *Issuer3 {
+	for again := true; again; {
+		again = false
+		for _, o := range w.I3 {
+			if o.Fix == int(((fix%8)+8)%8) {
+				fix++
+				again = true
+			}
+		}
+	}
+	fix = ((fix % 8) + 8) % 8
 	key := fixtures.RSA(int(fix))
 	op := fmt.Sprintf("iss3/%d/new", len(w.I3))
 	w.Ent.Begin("issuer3", op)
